@@ -614,12 +614,12 @@ def run(ctx):
     # their processes run side by side with the table / proof / T-diff part below; their results are processed afterwards.
     jobs = [prepare_converge(ctx, 0, corpus_part=(0, 3)), prepare_converge(ctx, 0, corpus_part=(1, 3)),
             prepare_converge(ctx, 0, corpus_part=(2, 3)),
-            prepare_converge(ctx, ctx.n(16, 200)),
+            prepare_converge(ctx, ctx.n(16, 150)),
             # histories over the objects that decide EDS content by locality (endpoint localities, localityLbSetting, outlier
             # detection, root-namespace rules), mostly in bursts
-            prepare_converge(ctx, ctx.n(6, 80), locality=True),
-            prepare_converge(ctx, ctx.n(8, 60), ambient=True),
-            prepare_rebuild(ctx, ctx.n(150, 1500))]
+            prepare_converge(ctx, ctx.n(6, 60), locality=True),
+            prepare_converge(ctx, ctx.n(8, 40), ambient=True),
+            prepare_rebuild(ctx, ctx.n(150, 1000))]
     if ctx.quick():
         jobs.append(prepare_converge(ctx, -1, sweep=True, slice_n=12))
     else:
@@ -654,9 +654,9 @@ def model_part(ctx):
     n = ctx.n(3000, 60000)
     ctx.diff_stream("needs", n, oracle=oracle)
     # the narrowing of partial EDS pushes: real EdsGenerator.Generate vs Narrow.lean; oracle: a skipped cluster is unchanged
-    ctx.diff_stream("edsnarrow", ctx.n(250, 4000), oracle=oracle)
+    ctx.diff_stream("edsnarrow", ctx.n(250, 2000), oracle=oracle)
     # the end-to-end stream of harness/e2e (notes/E2E.md): real server, real generators, SotW and delta clients
-    e2e_common.run(ctx, "c01", ctx.n(12, 120))
+    e2e_common.run(ctx, "c01", ctx.n(12, 60))
     # the property-level oracle (order independence, monotonicity in keys and under merging, Forced) runs on every generated
     # case as a second line, independently of the model
     for stream in ("needs", "edsnarrow"):
